@@ -60,6 +60,8 @@ def run(ctx, rep):
                             'to be applied to never loses one (helper listeners folded as inductive steps; the C04.R7 folds)')
     n = common.bookkeeping(ctx, rep, R6, 'C02.R6')
     rep.floor('C02.R6', 'bookkeeping cases', n, 90)
+    RL = rep.rule('C02.R7', 'a rule stops offering targets because of a world / constant limit only in states where a quit flag is put on the branch (limit predicates and guarded target producers folded below / at / above the limit): an open branch cut short by a limit is never limit-free')
+    common.limit_guards(ctx, rep, RL, 'C02.R7')
 
 
 def r3(ctx, rep):
